@@ -437,7 +437,7 @@ def dom(t, env, big=True, k=2, depth=2, cap=48, _stack=()):
         d = dom(t.elem, env, False, k, depth, cap, _stack)
         out = []
         sizes = size_dom(t.size, big)
-        if d is None:
+        if not d:                   # no value of the element type at this depth (None) or an empty domain
             return [[]] if 0 in sizes else None
         d = list(d)
         for n in sizes:
